@@ -455,3 +455,61 @@ def h_constructor_style_then_assignment(leaf: int, how: int, read_first: bool) -
     else:
         o.style = {k.replace(".", "_"): vals[1]}
     return ok and _get_leaf(o.style, k) == vals[1]
+
+
+def h_magic_nested_then_underscore(k1: int, k2: int, k3: int, k4: int, v1: int, v2: int) -> bool:
+    """
+    pre: 0 <= k1 <= 3 and 0 <= k2 <= 3 and 0 <= k3 <= 3 and 0 <= k4 <= 3
+    post: _
+    """
+    # one call that gives a nested dictionary first and an underscore keyword afterwards: the two are merged leaf by leaf and, on the same
+    # leaf, the later one (the underscore keyword) wins
+    a, b, a2, c = _pick(NAMES, k1), _pick(NAMES, k2), _pick(NAMES, k3), _pick(NAMES, k4)
+    inner = {b: v1}
+    kw = {a: inner, f"{a2}_{c}": v2}
+    r = magic_to_dict(kw)
+    exp = {a: {b: v1}}
+    exp.setdefault(a2, {})[c] = v2
+    return r == exp and (a != a2 or r[a][c] == v2)
+
+
+# ---------------------------------------------------------------------------- show() keyword notations other than the full leaf path
+_SHOW_FORMS = (
+    ({"style_description": "txt"}, "description.text", "txt"),          # a string for a text sub-style
+    ({"style_legend": "lt"}, "legend.text", "lt"),
+    ({"style_magnetization_size": 3}, "magnetization.arrow.size", 3),  # deprecated alias
+    ({"style_path": {"line_width": 4}}, "path.line.width", 4),        # dictionary for an inner node, magic keys inside
+    ({"style_magnetization_arrow": {"size": 5}}, "magnetization.arrow.size", 5),
+    ({"style": {"path_line_width": 6}}, "path.line.width", 6),        # everything in one style dictionary
+)
+_SHOW_BAD = ({"style_path_lin_width": 3}, {"style_magnetization_arow_size": 2}, {"style_opacit": 0.5}, {"style_path_line_widht": 1})
+
+
+def h_show_keyword_forms(i: int, with_object_value: bool) -> bool:
+    """
+    pre: 0 <= i <= 5
+    post: _
+    """
+    # every valid way of writing a style value in the show() call reaches its leaf and beats the object's own value
+    kw, leaf, val = _pick(_SHOW_FORMS, i)
+    st0 = _CUB2.style
+    _set_leaf(st0, "path.line.width", 9 if with_object_value else None, 0)
+    _set_leaf(st0, "magnetization.arrow.size", 9 if with_object_value else None, 0)
+    st = get_style(_CUB2, magpy.defaults, **{k: (dict(v) if isinstance(v, dict) else v) for k, v in kw.items()})
+    ok = _get_leaf(st, leaf) == val
+    _set_leaf(st0, "path.line.width", None, 0)
+    _set_leaf(st0, "magnetization.arrow.size", None, 0)
+    return ok
+
+
+def h_show_keyword_misspelled_rejected(i: int) -> bool:
+    """
+    pre: 0 <= i <= 3
+    post: _
+    """
+    # a misspelled style name in the show() call is rejected, at any depth
+    try:
+        get_style(_CUB2, magpy.defaults, **_pick(_SHOW_BAD, i))
+    except (AttributeError, ValueError):
+        return True
+    return False
